@@ -375,7 +375,12 @@ func (ex *Exec) assert(id string, c *Term) {
 	}
 }
 
-func (ex *Exec) allVars() []*Term { return ex.vars }
+func (ex *Exec) allVars() []*Term {
+	if len(ex.auxVars) == 0 {
+		return ex.vars
+	}
+	return append(append([]*Term{}, ex.vars...), ex.auxVars...)
+}
 
 func (ex *Exec) reportViolation(id, kind, msg string, m Model) {
 	key := kind + ":" + id
@@ -475,6 +480,9 @@ func registerMisc(t map[string]intrinsic) {
 
 	lookupEnv := func(ex *Exec, caller *frame, fn *ssa.Function, args []Value) (Value, *goPanic) {
 		return Tuple{Str{}, ex.C.False}, nil
+	}
+	t["(net.IP).String"] = func(ex *Exec, caller *frame, fn *ssa.Function, args []Value) (Value, *goPanic) {
+		return ex.mkStr("<ip>"), nil
 	}
 	t["os.LookupEnv"] = lookupEnv
 	t["syscall.Getenv"] = lookupEnv
